@@ -41,7 +41,7 @@ theorem bytesOk_of_all {f : Array Nat} (h : f.toList.all (fun x => decide (x < 2
 def nameGoodB (e : Bytes) : Bool :=
   match fileNameToSplit e with
   | some (nm, ty) => decide (entName e = (if ty = [] then nm else nm ++ [46] ++ ty)) && !nm.contains 46 && !ty.contains 46 &&
-      (decide ((e.getD 11 0 / 16) % 2 ≠ 1) || decide (entName e ≠ []))
+      (decide ((e.getD 11 0 / 16) % 2 ≠ 1) || decide (entName e ≠ [])) && !nm.contains 47 && !ty.contains 47
   | none => false
 
 theorem nameGood_of_check {e : Bytes} (h : nameGoodB e = true) : NameGood e := by
@@ -53,7 +53,8 @@ theorem nameGood_of_check {e : Bytes} (h : nameGoodB e = true) : NameGood e := b
     rw [hn] at h
     simp only [Bool.and_eq_true, decide_eq_true_eq, Bool.not_eq_true'] at h
     simp only [Bool.or_eq_true, decide_eq_true_eq] at h
-    exact ⟨nm, ty, hn, h.1.1.1, by simpa using h.1.1.2, by simpa using h.1.2, fun hd => h.2.resolve_left (fun c => c hd)⟩
+    exact ⟨nm, ty, hn, h.1.1.1.1.1, by simpa using h.1.1.1.1.2, by simpa using h.1.1.1.2, fun hd => h.1.1.2.resolve_left (fun c => c hd),
+      by simpa using h.1.2, by simpa using h.2⟩
 
 def rootOkB (d : Disk) : Bool :=
   (dirOfBytes (rootBuf d)).all (fun e =>
